@@ -31,6 +31,10 @@ def scenarios(rng, quick):
             # missing source among valid ones
             for destk in ('dir',):
                 sc = base(driver, destk); sc.opts = ['r']; sc.paths = insert_at(valid, [b'missing'], pos) + [b'DEST']; sc.cls = 'missing_source'; out.append(sc)
+            # a source that does not exist because its lookup fails with ENOTDIR / ELOOP / ENAMETOOLONG rather than ENOENT
+            for bad, cls in ((b'v1/inner.txt', 'missing_source_enotdir'), (b'loop/inner.txt', 'missing_source_eloop'), (b'n' * 300, 'missing_source_enametoolong'),
+                             (b'vd/inner/x', 'missing_source_enotdir_deep')):
+                sc = base(driver); sc.l(b'/W/loop', b'loop'); sc.opts = ['r']; sc.paths = insert_at(valid + [b'vd'], [bad], pos + 1 if pos == 2 else pos) + [b'DEST']; sc.cls = cls; out.append(sc)
             # directory without --recursive
             sc = base(driver); sc.opts = []; sc.paths = insert_at(valid, [b'vd'], pos) + [b'DEST']; sc.cls = 'dir_without_recursive'; out.append(sc)
             # several sources, destination not a directory (absent / file)
@@ -111,7 +115,7 @@ def run(ctx):
             ctx.violation(f'case-{i}-{sc.cls}-corr.json', dict(cls=sc.cls, argv=[repr(x) for x in o.argv], impl=o.res.cls, model=a[:300], request=o.request,
                                                                correspondence='src/main.rs up-front validation vs Xcp.validate'),
                           f'the model does not reject {sc.cls} up front (implementation: {o.res.stderr.strip()[-100:]})', no_input=True)
-    ctx.cov['rule'] = ('each rejection class (no source, missing source, directory without -r, several sources to a non-directory, directory onto a file, source identical to destination by '
+    ctx.cov['rule'] = ('each rejection class (no source, missing source — ENOENT, ENOTDIR, ELOOP, ENAMETOOLONG —, directory without -r, several sources to a non-directory, directory onto a file, source identical to destination by '
                        'spelling/symlink/own directory, --force with --no-clobber, unknown option values, malformed or empty glob) x position of the offending argument {first, middle, last} '
                        'x destination state x driver, plus valid twins. exhaustive over this table')
     ctx.cov['exhaustive'] = True
